@@ -167,7 +167,7 @@ func c07(c *an.Ctx) {
 		}
 	})
 
-	c.Check("R-GUARD", "processBinlog tests every registered resource; shouldInvalidate consults before and after of every delta and invalidates on update.err", 4, func(o *an.O) {
+	c.Check("R-GUARD", "processBinlog tests every registered resource; shouldInvalidate consults before and after of every delta and invalidates on update.err", 3, func(o *an.O) {
 		pb := c.NeedFunc(lsq, "(*dbTracker).processBinlog")
 		invs := an.Calls(pb, an.Mod(rx, "Resource", "Invalidate"))
 		if len(invs) != 1 {
@@ -253,21 +253,74 @@ func c07(c *an.Ctx) {
 		if !seen["before"] || !seen["after"] {
 			o.Fail(p.Pos(si.Pos()), "shouldInvalidate must test both the before and the after image of a row (a row moving out of / into the filter only matches one of them); found before=%v after=%v", seen["before"], seen["after"])
 		}
-		// a match on either returns true: with both test-true edges blocked, no `return true` is reachable except the err branch
-		okErr := false
-		for _, e := range an.Exits(si, false) {
-			if an.Expr(e.(*ssa.Return).Results[0]) != "true" {
-				continue
-			}
-			for _, g := range an.GuardStrings(e.Block()) {
-				if strings.HasSuffix(g, ".err != nil)") {
-					okErr = true
-					o.Site(e)
+		// The decision is evaluated: with (same table, update.err != nil, Test(before), Test(after))
+		// fixed, the set of values shouldInvalidate can return must be what the rule says.
+		{
+			nAtoms := map[string]int{}
+			for mask := 0; mask < 16; mask++ {
+				T, E, B, A := mask&1 != 0, mask&2 != 0, mask&4 != 0, mask&8 != 0
+				sim := &an.BoolSim{Fn: si, Atom: func(v ssa.Value) (bool, bool) {
+					switch x := v.(type) {
+					case *ssa.BinOp:
+						if x.Op != token.EQL && x.Op != token.NEQ {
+							return false, false
+						}
+						xs, ys := an.Expr(x.X), an.Expr(x.Y)
+						if strings.HasSuffix(xs, ".table") && strings.HasSuffix(ys, ".table") && xs != ys {
+							nAtoms["table"]++
+							return T == (x.Op == token.EQL), true
+						}
+						if isConstNil(x.Y) && strings.HasSuffix(xs, ".err") {
+							nAtoms["err"]++
+							return E == (x.Op == token.NEQ), true
+						}
+					case *ssa.Call:
+						if x.Call.IsInvoke() && x.Call.Method.Name() == "Test" && len(x.Call.Args) == 1 {
+							arg := an.Expr(x.Call.Args[0])
+							if strings.HasSuffix(arg, ".before") {
+								nAtoms["before"]++
+								return B, true
+							}
+							if strings.HasSuffix(arg, ".after") {
+								nAtoms["after"]++
+								return A, true
+							}
+						}
+					}
+					return false, false
+				}}
+				sim.Run()
+				got := sim.ReturnedBools(0)
+				var want string
+				switch {
+				case !T:
+					want = "only false"
+				case E:
+					want = "only true"
+				case B || A:
+					want = "true possible"
+				default:
+					want = "only false"
+				}
+				okCase := true
+				switch want {
+				case "only false":
+					okCase = !got["true"] && !got["?"]
+				case "only true":
+					okCase = !got["false"] && !got["?"] && got["true"]
+				case "true possible":
+					okCase = got["true"]
+				}
+				if !okCase {
+					o.Fail(p.Pos(si.Pos()), "shouldInvalidate(sameTable=%v, update.err!=nil=%v, Test(before)=%v, Test(after)=%v) can return %v; expected %s: an update that changes the rows of a live query (or could not be decoded) must invalidate it, and only updates of its table may", T, E, B, A, keysOf(got), want)
+					break
 				}
 			}
-		}
-		if !okErr {
-			o.Fail(p.Pos(si.Pos()), "shouldInvalidate no longer invalidates when the update could not be decoded (update.err)")
+			for _, a := range []string{"table", "err", "before", "after"} {
+				if nAtoms[a] == 0 {
+					o.Fail(p.Pos(si.Pos()), "shouldInvalidate never looks at %s", a)
+				}
+			}
 		}
 		// table mismatch is the only way around the error test and the scan of the deltas
 		{
@@ -1055,4 +1108,14 @@ func itemsParam(fn *ssa.Function) *ssa.Parameter {
 		}
 	}
 	return fn.Params[len(fn.Params)-1]
+}
+
+
+func keysOf(m map[string]bool) []string {
+	var out []string
+	for k := range m {
+		out = append(out, k)
+	}
+	sort.Strings(out)
+	return out
 }
